@@ -502,7 +502,7 @@ def run(ctx):
     ctx.rule("R16", "chunked sections write every value once, in order (evaluated)", "a template with fewer fields than values per line drops values silently: the section is too short to be read back")
     check_chunked_sections(ctx, "R16")
     # orbital blocks of the wavefunction formats, writer fragment against reader routine (rules of C01, adopted)
-    ctx.borrow("c01", {"R14": "R17", "R15": "R18", "R16": "R19", "R17": "R27", "R18": "R28"})
+    ctx.borrow("c01", {"R14": "R17", "R15": "R18", "R16": "R19", "R17": "R27", "R18": "R28", "R19": "R32"})
     ctx.rule("R20", "dictionary keys looked up by a writer are keys its reader stores", "`extra.get('occupancy')` on the writer side, `extra['occupancies']` on the reader side: the column is written with its default")
     check_dict_keys(ctx, "R20")
     ctx.rule("R21", "FCHK gradient / Hessian / polarizability: packed by the writer, unpacked by the reader to the same array (evaluated)", "Fortran-order flattening or a strict lower triangle: derivatives attached to other atoms, diagonal force constants lost")
